@@ -115,6 +115,7 @@ def gen_program(tape, phase):
             break
         chosen.append(src[tape.draw(len(src), 'pool.pick')])
     nproc = 1 + tape.draw(2, 'nproc')
+    focus = tape.draw(5, 'focus')        # 4: log-heavy program (interleaved appends)
     threads = []
     uid = [0]
     special = {}       # 'input'/'final' -> model idx (bound to one content only)
@@ -129,6 +130,8 @@ def gen_program(tape, phase):
                                       (7, 'retrieve'), (1, 'db_store_model'), (1, 'retrieve_log')], 'op')
                 m = chosen[tape.draw(len(chosen), 'op.model')]
                 uid[0] += 1
+                if focus == 4 and tape.draw(10, 'focus.log') < 7:
+                    kind = 'log'
                 if kind in ('store_input', 'store_final'):
                     nm = 'input' if kind == 'store_input' else 'final'
                     m = special.setdefault(nm, m)
@@ -137,6 +140,8 @@ def gen_program(tape, phase):
                 if kind == 'log':
                     sev = ('info', 'warning', 'error')[tape.draw(3, 'log.sev')]
                     msg = base.MESSAGES[tape.draw(len(base.MESSAGES), 'log.msg')]
+                    if focus == 4 and tape.draw(5, 'log.long') < 2:
+                        msg = base.MESSAGES[-1]          # > 8 KiB: two raw writes
                     ops.append({'kind': 'log', 'sev': sev, 'msg': f'{msg} #{phase}.{uid[0]}',
                                 'model': m if tape.draw(3, 'log.model') == 2 else None})
                 elif kind == 'annotate':
